@@ -11,6 +11,10 @@ package main
 // hcl.NewDiagnosticTextWriter (width 80 and 0, colour off and on, source snippets
 // and "with x as ..." value summaries), is searched for every canary.
 //
+// Carrier stream (carrier.go): the secret reaches the sink through a
+// value-preserving construct (bare splat, identity for, conditional arm, ...), with
+// its own oracle "marks preserved" one step before the diagnostic.
+//
 // Message text is the observable and the oracle is the property itself; the Coq
 // case files emitted (leakcases_*.v, calib.go) only calibrate the text model of
 // Diag/Leak.v and Diag/TextWriter.v (FriendlyName, valueStr, MismatchMessage,
@@ -157,12 +161,14 @@ var corpus = []string{
 
 func run(cfg *hv.RunCfg) error {
 	rep := hv.NewReport("C19", cfg.Seed)
-	rep.Rule = "scope: hv.EvalGen scope (marks 0.35) + fixed sec* family (secrets top-level, nested in unmarked collections, inside marked collections, as keys of a marked map), every string/number/map key under a mark replaced by a fresh canary; expression: one of ~330 erroneous shapes in 10 categories (index, dupkey, cond, conv, null, names, args, iter, tmpl, objkey) with holes filled by references to secrets, 20% wrapped, 20% from the typed generator; modes expr (50%), JSON-syntax expression (template strings, objects with template keys, 10%), hcldec.Decode of a body with a typed AttrSpec (20%), dynblock.Expand+Decode (20%); hits are refined by classify.go into the three known mechanisms (for-binds-unmarked-elements, dynblock-iterator-unmarked, conversion-error-quotes-attribute-name) by re-evaluation / message shape, everything else keeps the generic kind; non-trivial = parses and yields at least one diagnostic; distinct by SHA-256 of the case text"
+	rep.Rule = "scope: hv.EvalGen scope (marks 0.35) + fixed sec* family (secrets top-level, nested in unmarked collections, inside marked collections, as keys of a marked map), every string/number/map key under a mark replaced by a fresh canary; expression: one of ~330 erroneous shapes in 10 categories (index, dupkey, cond, conv, null, names, args, iter, tmpl, objkey) with holes filled by references to secrets, 20% wrapped, 20% from the typed generator; modes expr (50%), JSON-syntax expression (template strings, objects with template keys, 10%), hcldec.Decode of a body with a typed AttrSpec (20%), dynblock.Expand+Decode (20%); hits are refined by classify.go into the three known mechanisms (for-binds-unmarked-elements, dynblock-iterator-unmarked, conversion-error-quotes-attribute-name) by re-evaluation / message shape, everything else keeps the generic kind; carrier stream (carrier.go, ~30% of the cases, all modes): scope variables of every collection kind (tuple, list, set, map, object, string) x marking (elements marked, WHOLE collection marked, marked leaves in unmarked elements, whole-marked collection nested in an unmarked object/tuple) holding two EQUAL secrets, referenced through 1-3 value-preserving carriers (bare splat, attribute splat, splat + traversal, identity for / object-for, conditional arms, parentheses, [x][0], {a = x}.a, template wrap, first(x) / first(x...), try, singleton for / splat, auto-upgrading splat) that fill the %S/%L/%O holes of every sink shape plus dedicated sinks (duplicate key keyed by / iterating the carrier, index into a map lacking the key, wrong-typed function argument, template needing a string, attribute names from values, ...); a hit filed under a for / dynblock known finding must persist when the carriers are replaced by direct references (## direct), otherwise it goes back to the generic kind; oracle carrier-drops-marks: in the value of every closed sub-expression the content of a secret lies under the marks it has in the scope; the carrier expressions are also emitted as ceval cases (carriercases*.v, Eval/EvalCheck.v); non-trivial = parses and yields at least one diagnostic; distinct by SHA-256 of the case text"
 	r := hv.NewRng(cfg.Seed, 1901)
 	rc := hv.NewRng(cfg.Seed, 1902) // calibration stream
 	cf := &hv.CaseFile{Dir: cfg.Out, Name: "leakcases",
 		Imports: "From Coq Require Import QArith String.\nFrom HclV Require Import Base.Prelude Cty.Values Cty.Convert Cty.Ops Eval.Impl Diag.Leak Diag.TextWriter Diag.LeakCheck.",
 		Ctype:   "lcase", Checker: "check_leak_cases", Extras: [][2]string{{"skipped", "skipped_leak_cases"}}}
+
+	ec := &evalCases{} // ceval cases of the carrier stream (carrier.go)
 
 	type classKey struct{ kind, summary string }
 	best := map[classKey]hv.Failure{} // shortest reproducer per (kind, summary)
@@ -180,6 +186,8 @@ func run(cfg *hv.RunCfg) error {
 		diags, hits, ok := runCase(back)
 		if ok {
 			hits = classify(back, hits, rep.Hist)
+			hits = directRefutes(back, hits, rep.Hist)
+			hits = append(hits, marksOracle(back, rep.Hist)...)
 		}
 		if !ok && len(hits) == 0 {
 			rep.Hist("parse-error")
@@ -209,8 +217,12 @@ func run(cfg *hv.RunCfg) error {
 			rep.Hist("HIT:" + h.kind + ":" + h.summary)
 			rep.Hist("HITMODE:" + ci.mode + ":" + h.kind)
 			rep.Hist("HITTEXT:" + h.kind + ":" + hitSkeleton(h, canaries(back.frames)))
+			detail := fmt.Sprintf("diagnostic %q: canary %q found in: %s", h.summary, h.canary, h.where)
+			if h.kind == kindCarrier {
+				detail = fmt.Sprintf("marks not preserved (%s): %s", h.summary, h.where)
+			}
 			f := hv.Failure{Kind: h.kind, Input: text,
-				Detail: fmt.Sprintf("diagnostic %q: canary %q found in: %s", h.summary, h.canary, h.where),
+				Detail: detail,
 				Extra:  map[string]string{"source": ci.src, "summary": h.summary, "canary": h.canary, "scope": dumpScope(back), "generic_kind": h.kind0}}
 			if old, ok := best[k]; !ok || len(ci.src) < len(old.Extra["source"]) {
 				best[k] = f
@@ -238,9 +250,26 @@ func run(cfg *hv.RunCfg) error {
 			ci.src = src
 			do(ci, "corpus", n)
 		}
+		for _, text := range carrierCorpus {
+			ci, err := parseCase(text)
+			if err != nil {
+				return fmt.Errorf("carrier corpus: %v", err)
+			}
+			do(ci, "carrier-corpus", 0)
+			if ci.mode == "expr" {
+				ec.add(rep, ci, ci.src, "corpus")
+			}
+		}
 		for i := 0; i < cfg.N; i++ {
 			ci, cg, n := newCase(r)
-			cat, e := cg.genExpr()
+			carrier := r.Chance(0.34)
+			var cat, e, sink string
+			if carrier {
+				cg.car = newCarGen(r, ci)
+				cat, sink, e = cg.genCarExpr()
+			} else {
+				cat, e = cg.genExpr()
+			}
 			switch x := r.Intn(10); {
 			case x < 5:
 				ci.src = e
@@ -253,6 +282,9 @@ func run(cfg *hv.RunCfg) error {
 			default:
 				cat = "dynblock"
 				genDynblock(r, ci, cg, e)
+			}
+			if carrier {
+				carrierCase(rep, ec, ci, cg, sink)
 			}
 			rep.Hist(fmt.Sprintf("canaries-planted:%02d", min(n, 60)/5*5))
 			do(ci, cat, n)
@@ -284,6 +316,11 @@ func run(cfg *hv.RunCfg) error {
 		if names, err = cf.Flush(400); err != nil {
 			return err
 		}
+		more, err := ec.flush(rep, cfg.Out, 60)
+		if err != nil {
+			return err
+		}
+		names = append(names, more...)
 	}
 	rep.CaseFiles = names
 	return rep.Write(cfg.Out)
